@@ -145,7 +145,19 @@ func (e *Env) eval(ex contract.Expr) Val {
 		return e.binary(n)
 	case *contract.Cond:
 		c := e.evalBool(n.C)
-		return iteVal(c, e.eval(n.A), e.eval(n.B))
+		a, b := e.eval(n.A), e.eval(n.B)
+		_, am := a.(VMath)
+		_, bm := b.(VMath)
+		if am || bm {
+			// ghost / spec-function values are plain terms
+			at, ok1 := scalar(a)
+			bt, ok2 := scalar(b)
+			if !ok1 || !ok2 || at.Sort != bt.Sort {
+				e.fail("conditional over incompatible ghost values")
+			}
+			return VMath{term.Ite(c, at, bt)}
+		}
+		return iteVal(c, a, b)
 	case *contract.Quant:
 		if v := e.expandQuant(n); v != nil {
 			return v
@@ -213,6 +225,15 @@ func (e *Env) eval(ex contract.Expr) Val {
 func (e *Env) ident(name string) Val {
 	if v, ok := e.vars[name]; ok {
 		return v
+	}
+	if e.locals && len(e.st.Frames) > 0 && name == "rangeindex" && e.loopHead != nil && e.fn != nil {
+		// the hidden index of a `for ... range slice` loop: several loops of a function have one
+		// each; take the one of the innermost range loop around the invariant's loop head
+		if a := e.x.rangeIndexAlloc(e.fn, e.loopHead); a != nil {
+			if v, ok := e.st.Frames[0].Cells[a]; ok {
+				return v
+			}
+		}
 	}
 	if e.locals && len(e.st.Frames) > 0 {
 		fr := e.st.Frames[0]
@@ -718,6 +739,21 @@ func (e *Env) call(n *contract.Call) Val {
 			e.fail("config(%q) is not set by the unwinding driver", k)
 		}
 		return VT{term.I(v), tyInt}
+	case "arrof":
+		// arrof(s): the backing array of an integer slice as a mathematical array; element k of s
+		// is arrof(s)[s.off + k]
+		v := e.eval(n.Args[0])
+		sl, ok := v.(VSlice)
+		if !ok {
+			e.fail("arrof() of a non-slice")
+		}
+		et := sl.Ty.Underlying().(*types.Slice).Elem()
+		cs := comps(et)
+		if len(cs) != 1 || cs[0].sort != term.Int {
+			e.fail("arrof(): only slices of integer-like elements")
+		}
+		// (tables built by package initialisers are immutable: read from the initial snapshot, as loads do)
+		return VMath{e.x.loadComp(e.st, "e:"+typeKey(et), term.Int, sl.Ref, nil)}
 	case "bytes":
 		// bytes(s): the byte sequence of a string as a mathematical array (index 0 = first byte)
 		v := e.eval(n.Args[0])
@@ -983,4 +1019,33 @@ func (e *Env) expandQuant(q *contract.Quant) Val {
 		}
 	}
 	return VT{term.And(cs...), tyBool}
+}
+
+// rangeIndexAlloc finds the "rangeindex" local of the innermost range-over-slice loop whose body
+// contains block b (or whose header is b).
+func (x *Exec) rangeIndexAlloc(fn *ssa.Function, b *ssa.BasicBlock) *ssa.Alloc {
+	info := x.P.funcInfo(fn)
+	var best *Loop
+	var bestA *ssa.Alloc
+	for _, l := range info.headers {
+		if !l.Blocks[b] {
+			continue
+		}
+		var a *ssa.Alloc
+		for _, ins := range l.Head.Instrs {
+			if u, ok := ins.(*ssa.UnOp); ok && u.Op == token.MUL {
+				if al, ok := u.X.(*ssa.Alloc); ok && al.Comment == "rangeindex" {
+					a = al
+					break
+				}
+			}
+		}
+		if a == nil {
+			continue
+		}
+		if best == nil || len(l.Blocks) < len(best.Blocks) {
+			best, bestA = l, a
+		}
+	}
+	return bestA
 }
